@@ -487,6 +487,10 @@ func (p *Prog) AllFuncs() map[*ssa.Function]bool {
 	return p.all
 }
 
+// IsNewHelper: fn does not exist in the reviewed tree and its calls were replaced by its body (for a new exported
+// function, which stays in ModuleFuncs as an entry point of its own; rules about "where in the caller" skip it).
+func (p *Prog) IsNewHelper(fn *ssa.Function) bool { return fn != nil && p.inlined[FuncName(fn)] }
+
 // ModuleFuncs returns the module's source functions (incl. closures) sorted
 // by position; functions declared in overlay files are included.
 func (p *Prog) ModuleFuncs() []*ssa.Function {
